@@ -50,3 +50,26 @@ pub fn c14_bare_read(input: &mut impl Read) -> io::Result<[u8; 4]> {
     input.read(&mut b)?;
     Ok(b)
 }
+
+// C08.R1 control: hashing adapter that accounts the whole buffer before a possibly short write
+pub struct HashBefore<W> {
+    pub writer: W,
+    pub hasher: Vec<u8>,
+}
+pub trait MiniDigest {
+    fn update(&mut self, data: impl AsRef<[u8]>);
+}
+impl MiniDigest for Vec<u8> {
+    fn update(&mut self, data: impl AsRef<[u8]>) {
+        self.extend_from_slice(data.as_ref());
+    }
+}
+impl<W: Write> Write for HashBefore<W> {
+    fn write(&mut self, buf: &[u8]) -> io::Result<usize> {
+        self.hasher.update(buf);
+        self.writer.write(buf)
+    }
+    fn flush(&mut self) -> io::Result<()> {
+        self.writer.flush()
+    }
+}
